@@ -1160,9 +1160,9 @@ fn search(out: &mut Out, rt: &mut Ratios, rng: &mut Rng, thorough: bool) {
 fn coq_rows(a: &Rows) -> String {
     coq_rows_f64(a)
 }
-fn corr_matrix(rng: &mut Rng, m: usize, n: usize, w32: bool, exact_only: bool) -> (String, Rows) {
+fn corr_matrix(rng: &mut Rng, m: usize, n: usize, w32: bool, fam: usize) -> (String, Rows) {
     let k = m.min(n);
-    let fam = rng.below(if exact_only { 8 } else { 10 });
+    let fam = fam % 10;
     let (name, a): (&str, Rows) = match fam {
         0 => ("integer", (0..m).map(|_| (0..n).map(|_| rng.int(-9, 9) as f64).collect()).collect()),
         1 => ("dyadic", (0..m).map(|_| (0..n).map(|_| rng.dyadic(4, 4)).collect()).collect()),
@@ -1190,18 +1190,18 @@ fn corr_matrix(rng: &mut Rng, m: usize, n: usize, w32: bool, exact_only: bool) -
         }
         6 => {
             // graded columns
-            ("graded", (0..m).map(|_| (0..n).map(|j| rng.normal() * 10f64.powi(-3 * j as i32)).collect()).collect())
+            ("graded", (0..m).map(|_| (0..n).map(|j| rng.normal() * 10f64.powi(-4 * j as i32)).collect()).collect())
         }
         7 => {
-            let s = *rng.pick(&[1e-12, 1e12]);
+            let s = if w32 { 1e-12 } else { *rng.pick(&[1e-12, 1e12, 1e-18]) };
             ("scaled", (0..m).map(|_| (0..n).map(|_| rng.normal() * s).collect()).collect())
         }
         _ => ("random", (0..m).map(|_| (0..n).map(|_| rng.normal()).collect()).collect()),
     };
     (name.to_string(), to_width(&a, w32))
 }
-fn corr_spd(rng: &mut Rng, n: usize, w32: bool) -> (String, Rows) {
-    let fam = rng.below(5);
+fn corr_spd(rng: &mut Rng, n: usize, w32: bool, fam: usize) -> (String, Rows) {
+    let fam = fam % 6;
     let (name, mut a): (&str, Rows) = match fam {
         0 => {
             let b: Rows = (0..n + 1).map(|_| (0..n).map(|_| rng.int(-3, 3) as f64).collect()).collect();
@@ -1223,6 +1223,17 @@ fn corr_spd(rng: &mut Rng, n: usize, w32: bool) -> (String, Rows) {
             // singular Gram matrix (rank n-1): zero or tiny pivots
             let b: Rows = (0..n.saturating_sub(1).max(1)).map(|_| (0..n).map(|_| rng.int(-2, 2) as f64).collect()).collect();
             ("gram_singular", matmul(&transpose(&b), &b))
+        }
+        4 => {
+            // an exactly zero pivot before the end: the next row divides 0 by 0 (NaN pivot, D3)
+            let mut a: Rows = (0..n).map(|i| (0..n).map(|j| if i == j { rng.int(1, 4) as f64 } else { 0.0 }).collect()).collect();
+            let z = rng.below(n.max(2) - 1).min(n - 1);
+            a[z][z] = 0.0;
+            if n >= 2 && rng.bool() {
+                let t = rng.usize_in(z + 1, n - 1).min(n - 1);
+                a[t][t] = -(rng.int(1, 3) as f64);
+            }
+            ("zero_pivot", a)
         }
         _ => {
             let s = *rng.pick(&[1e-12, 1e12, 1.0]);
@@ -1252,7 +1263,7 @@ fn correspondence(out: &mut Out, rng: &mut Rng, thorough: bool) {
         // ---- LU factors / inverse / solve (exact) ----
         {
             let n = dim(rng);
-            let (fam, mut a) = corr_matrix(rng, n, n, w32, false);
+            let (fam, mut a) = corr_matrix(rng, n, n, w32, rep);
             if rng.chance(0.15) && n >= 2 {
                 // exactly singular: duplicate a row
                 let (i, j) = (0, n - 1);
@@ -1276,7 +1287,7 @@ fn correspondence(out: &mut Out, rng: &mut Rng, thorough: bool) {
         // ---- Cholesky (exact), including rejection and the non-square error ----
         {
             let n = dim(rng);
-            let (fam, a) = corr_spd(rng, n, w32);
+            let (fam, a) = corr_spd(rng, n, w32, rep);
             let (m, a) = if rng.chance(0.08) { (n + 1, { let mut x = a.clone(); x.push(vec![1.0; n]); x }) } else { (n, a) };
             match chol_run(&a, w32) {
                 Ok(r) => {
@@ -1303,12 +1314,17 @@ fn correspondence(out: &mut Out, rng: &mut Rng, thorough: bool) {
         }
         // ---- QR (tolerance: hypot) ----
         {
-            let n = dim(rng);
+            // graded / tiny-scale columns need a few columns to get below the old absolute thresholds (D1)
+            let n = if rep % 10 == 6 { rng.usize_in(6, maxn) } else { dim(rng) };
             let m = if rng.bool() { n } else { rng.usize_in(n, maxn.max(n)) };
-            let (fam, a) = corr_matrix(rng, m, n, w32, false);
+            let (fam, a) = corr_matrix(rng, m, n, w32, rep);
             let sc = max_abs(&a).max(1e-300) * (m as f64).sqrt();
             let tol = if w32 { 2e-5 } else { 1e-9 };
-            if let Ok((q, r)) = qr_run(&a, w32) {
+            let qr_res = qr_run(&a, w32);
+            if let Err(e) = &qr_res {
+                out.fail("qr_panic", e, json!({"entry": "qr", "a": a, "f32": w32}));
+            }
+            if let Ok((q, r)) = qr_res {
                 out.corr("qr", format!("corr_qr {} {} {} {} {} {} {} {}", w, coq_n(m), coq_n(n), coq_rows(&a), coq_f64(tol), coq_f64(sc), coq_rows(&q), coq_rows(&r)),
                          json!({"a": a, "f32": w32, "family": fam}));
             }
@@ -1343,11 +1359,16 @@ fn correspondence(out: &mut Out, rng: &mut Rng, thorough: bool) {
         // ---- SVD: whole routine (tolerance), solve and tail on the implementation's own factors (exact) ----
         {
             let n = if rng.chance(0.5) { rng.usize_in(1, 4) } else { rng.usize_in(1, maxn.min(7)) };
-            let m = match rng.below(3) { 0 => n, 1 => rng.usize_in(n, maxn.min(8).max(n)), _ => rng.usize_in(1, n) };
+            let m = match (rep / 3) % 3 { 0 => n, 1 => rng.usize_in(n, maxn.min(8).max(n)), _ => rng.usize_in(1, n) };
             // continuous / lattice data only: columns belonging to (near-)equal singular values are not determined
             let a: Rows = to_width(&(0..m).map(|_| (0..n).map(|_| if rng.bool() { rng.normal() } else { rng.dyadic(4, 4) }).collect()).collect(), w32);
             let a = if rng.chance(0.25) { to_width(&scale_rows(&a, *rng.pick(&[1e-12, 1e12])), w32) } else { a };
-            if let Ok(o) = svd_run(&a, w32) {
+            let svd_res = svd_run(&a, w32);
+            if svd_res.is_err() {
+                // a panic of the implementation must be the model's "no convergence in 30 iterations"
+                out.corr("svd", format!("corr_svd_none {} {} {} {}", w, coq_n(m), coq_n(n), coq_rows(&a)), json!({"a": a, "f32": w32, "impl": "panic"}));
+            }
+            if let Ok(o) = svd_res {
                 let k = m.min(n);
                 let gap_ok = k >= 1 && o.s[0] > 0.0 && (0..k).all(|i| {
                     let next = if i + 1 < n { o.s[i + 1] } else { 0.0 };
